@@ -24,11 +24,20 @@
    Part "shared" adds a HISTORY: after the ListGrader call returned, one of its subgrader objects -- configured with
    its own debug flag cd -- is called on its own; what that call returns must be well formed and must show debugging
    output only if cd.  ParentForcesChildDebug = TRUE is the flawed design in which the debugging list leaves its
-   subgraders' debug flag switched on (second exhibit). *)
+   subgraders' debug flag switched on (second exhibit).
+   Part "family" runs the item pipeline after a CONSTRUCTION history (pre): "reg" defaults were registered on a class
+   of the family, "other" another grader of the family was built before with debug=True and a wrong_msg of its own,
+   "reg_other" both.  What the author passed to THIS grader is its configuration: none of that history may show in
+   what it returns.  AliasedDefaults = TRUE is the third exhibit.
+   A ListGrader call first compares the number of submitted inputs with its configuration (ValidateSubmission): with
+   too few or too many inputs the call raises and returns nothing -- so a call that returns has exactly one entry per
+   submitted input. *)
 EXTENDS ResultShape, Fixed, TLC
 
 CONSTANTS Part,            \* "item" | "single" | "interval" | "list" | "shared" (a list call, then one of its
-                           \*   subgrader objects called on its own: a history of two calls)
+                           \*   subgrader objects called on its own: a history of two calls) | "family" (the item
+                           \*   pipeline after a construction history of the class family: defaults registered on a
+                           \*   class of the family, another grader built with debug=True and options of its own)
           MaxAlts, MaxSamples, MaxCalls, Correlated,
           AnsOpts, CmpReturns,           \* palettes of the item part
           LeafAns, LeafCmp, TableGrades, \* palettes of the leaves inside list stages
@@ -36,8 +45,12 @@ CONSTANTS Part,            \* "item" | "single" | "interval" | "list" | "shared"
           TableOnly,       \* layouts whose leaves are all author-defined (keeps the four-input layout small)
           AttOpts,         \* attempt-credit schedule values tried ("none" = feature off)
           OkRecomputed,    \* TRUE = the code (consolidate_results recomputes ok); FALSE = the flawed design kept as exhibit
-          ParentForcesChildDebug   \* FALSE = the code; TRUE = flawed design: a debugging ListGrader switches its
+          ParentForcesChildDebug,  \* FALSE = the code; TRUE = flawed design: a debugging ListGrader switches its
                                    \*   subgraders' debug flag on and never back (exhibit)
+          PreOpts,                 \* construction histories tried in part "family"
+          AliasedDefaults          \* FALSE = the code: every construction starts from a fresh copy of the registered
+                                   \*   defaults; TRUE = flawed design: the registered dictionary itself is updated with each
+                                   \*   grader's options, so later graders of the family inherit them (exhibit)
 
 VARIABLES st,      \* stage (program counter)
           ch,      \* choice vector so far: sequence of <<tag, value>>
@@ -90,6 +103,7 @@ AttRaw == [c1 |-> One, c12 |-> Half, c0 |-> Zero, c1e4 |-> Q(1, 10000), c7e5 |->
 AttCredit(a) == LET q == AttRaw[a] IN Q(RoundHalfEven(q[1] * Unit, q[2]), Unit)
 SingleLike == Part \in {"single", "interval"}      \* an IntervalGrader is a SingleListGrader of two bounds
 ListLike == Part \in {"list", "shared"}
+ItemLike == Part \in {"item", "family"}
 \* how the bracket typed by the student fares against the author's bracket answers: it matches a full-credit answer,
 \* a half-credit answer with a message, a zero-credit answer, or none of them
 BracketOpts == {"b1", "b12", "b0", "bnone"}
@@ -173,7 +187,7 @@ Ungroup(layout, perGroup) ==
         IN entries(k)[j]]
 
 \* the plan: which leaves are computed, in the order the code computes them
-Plan == IF Part = "item" THEN << [pos |-> 0, grp |-> 1, nested |-> FALSE, last |-> TRUE] >>
+Plan == IF ItemLike THEN << [pos |-> 0, grp |-> 1, nested |-> FALSE, last |-> TRUE] >>
         ELSE IF SingleLike THEN [i \in 1..(IF cf.nE < cf.nI THEN cf.nE ELSE cf.nI) |->
                                         [pos |-> 0, grp |-> i, nested |-> FALSE, last |-> FALSE]]
         ELSE PlanFrom(GroupsOf(cf.layout), 1)
@@ -196,7 +210,7 @@ DefectOf(r, pins) == Defect(r, Form, NInputs, pins)
 (* ------------------------------------------------------------------ the state machine *)
 NoCf == [A |-> 1, S |-> 1, F |-> 0, corr |-> FALSE, nE |-> 1, nI |-> 1, pc |-> TRUE, la |-> "a1", layout |-> "none",
          ipc |-> TRUE, lw |-> "?", guard |-> "?", pins |-> {}, att |-> "none", debug |-> FALSE,
-         cd |-> TRUE, phase |-> 1, k |-> 0, lres |-> <<>>, res1 |-> [nores |-> TRUE], vd1 |-> "-"]
+         cd |-> TRUE, pre |-> "none", phase |-> 1, k |-> 0, lres |-> <<>>, res1 |-> [nores |-> TRUE], vd1 |-> "-"]
 NoRes == [nores |-> TRUE]
 NoLeaf == [kind |-> "formula", A |-> 1, S |-> 1, F |-> 0, corr |-> FALSE]
 
@@ -206,12 +220,13 @@ Init == /\ st = "start" /\ ch = <<>> /\ cf = NoCf /\ li = 0 /\ lf = NoLeaf /\ an
 \* the call starts: create_debuglog writes the banner; the shape of the problem is read from the configuration
 Start ==
   /\ st = "start"
-  /\ \/ /\ Part = "item"
-        /\ \E A \in 1..MaxAlts, S \in 1..MaxSamples, F \in 0..1, corr \in BOOLEAN :
+  /\ \/ /\ ItemLike
+        /\ \E A \in 1..MaxAlts, S \in 1..MaxSamples, F \in 0..1, corr \in BOOLEAN, pre \in PreOpts \cup {"none"} :
              /\ corr => (Correlated /\ S = 2)            \* one comparer call whatever the number of samples
              /\ A * (IF corr THEN 1 ELSE S) <= MaxCalls
-             /\ cf' = [cf EXCEPT !.A = A, !.S = S, !.F = F, !.corr = corr]
-             /\ ch' = << <<"alts", A>>, <<"samples", S>>, <<"failable", F>>, <<"corr", corr>> >>
+             /\ Part = "item" => pre = "none"
+             /\ cf' = [cf EXCEPT !.A = A, !.S = S, !.F = F, !.corr = corr, !.pre = pre]
+             /\ ch' = << <<"alts", A>>, <<"samples", S>>, <<"failable", F>>, <<"corr", corr>>, <<"pre", pre>> >>
      \/ /\ Part = "single"
         /\ \E nE \in 1..2, nI \in 1..MaxItems, pc \in BOOLEAN, la \in ListAns :
              /\ cf' = [cf EXCEPT !.nE = nE, !.nI = nI, !.pc = pc, !.la = la]
@@ -227,13 +242,22 @@ Start ==
              /\ cf' = [cf EXCEPT !.layout = layout, !.pc = pc, !.ipc = ipc, !.cd = cd]
              /\ ch' = << <<"layout", layout>>, <<"partial_credit", pc>>, <<"inner_partial_credit", ipc>>,
                          <<"child_debug", cd>> >>
-  /\ st' = "leaf" /\ li' = 1 /\ log' = {"BANNER"}
+  /\ st' = (IF ListLike THEN "validate" ELSE "leaf") /\ li' = 1 /\ log' = {"BANNER"}
   /\ UNCHANGED <<lf, ans, raw, sres, altres, items, grp, res, vd>>
+
+\* ListGrader.validate_submission: the number of submitted inputs must be the number the answers / the grouping
+\* describe; otherwise the call raises (a configuration error of the problem) and nothing is returned
+ValidateSubmission ==
+  /\ st = "validate"
+  /\ \E sub \in {"exact", "short", "long"} :
+       /\ ch' = Append(ch, <<"submitted", sub>>)
+       /\ st' = IF sub = "exact" THEN "leaf" ELSE "raised"
+  /\ UNCHANGED <<cf, li, lf, ans, raw, sres, altres, items, grp, res, log, vd>>
 
 \* a leaf item grader is asked to check one (answer, input) pair
 LeafStart ==
   /\ st = "leaf"
-  /\ \/ /\ Part = "item"
+  /\ \/ /\ ItemLike
         /\ lf' = [kind |-> "formula", A |-> cf.A, S |-> cf.S, F |-> cf.F, corr |-> cf.corr]
         /\ st' = "alt" /\ ch' = Append(ch, <<"leaf", "formula">>)
      \/ /\ SingleLike
@@ -260,7 +284,7 @@ TableReturn ==
 \* ItemGrader.check turns to the next alternative answer
 NextAlt ==
   /\ st = "alt"
-  /\ \E a \in (IF Part = "item" THEN AnsOpts ELSE LeafAns) :
+  /\ \E a \in (IF ItemLike THEN AnsOpts ELSE LeafAns) :
        /\ ans' = Append(ans, a)
        /\ cf' = [cf EXCEPT !.pins = @ \cup AnsPins(a)]
        /\ ch' = Append(ch, <<"ans", a>>)
@@ -270,7 +294,7 @@ NextAlt ==
 \* the comparer is called for one sample (or once for all samples when it is a CorrelatedComparer)
 Compare ==
   /\ st = "compare"
-  /\ \E v \in (IF Part = "item" THEN CmpReturns ELSE LeafCmp) :
+  /\ \E v \in (IF ItemLike THEN CmpReturns ELSE LeafCmp) :
        /\ raw' = v
        /\ ch' = Append(ch, <<"cmp", v>>)
        /\ st' = IF v \in ErrEvents THEN "guard" ELSE "standard"
@@ -316,7 +340,7 @@ ConsolidateSamples ==
 
 \* where a finished leaf goes
 AfterLeaf(r) ==
-  IF Part = "item" THEN /\ res' = r /\ st' = "strip" /\ UNCHANGED <<li, items, grp>>
+  IF ItemLike THEN /\ res' = r /\ st' = "strip" /\ UNCHANGED <<li, items, grp>>
   ELSE IF SingleLike THEN
        /\ items' = Append(items, r) /\ UNCHANGED <<grp, res>>
        /\ IF li < Len(Plan) THEN st' = "leaf" /\ li' = li + 1
@@ -439,7 +463,10 @@ AttemptCredit ==
   /\ UNCHANGED <<li, lf, ans, raw, sres, altres, items, grp, vd>>
 
 \* the debug flag the called object carries at this moment
-EffectiveDebug(d) == IF cf.phase = 2 THEN cf.cd \/ (ParentForcesChildDebug /\ cf.debug) ELSE d
+\* (flawed designs: left switched on by a debugging parent list / inherited from another grader of the family through
+\* the aliased registered defaults)
+EffectiveDebug(d) == IF cf.phase = 2 THEN cf.cd \/ (ParentForcesChildDebug /\ cf.debug)
+                     ELSE d \/ (AliasedDefaults /\ cf.pre = "reg_other")
 
 DebugAppend ==
   /\ st = "debug"
@@ -474,13 +501,13 @@ FollowUp ==
 Finished == st = "raised" \/ (st = "returned" /\ ~(Part = "shared" /\ cf.phase = 1))
 Done == Finished /\ UNCHANGED vars
 
-Next == \/ Start \/ LeafStart \/ TableReturn \/ NextAlt \/ Compare \/ MatrixGuard \/ Standardize \/ Multiply \/ ConsolidateSamples
+Next == \/ Start \/ ValidateSubmission \/ LeafStart \/ TableReturn \/ NextAlt \/ Compare \/ MatrixGuard \/ Standardize \/ Multiply \/ ConsolidateSamples
         \/ Best \/ Pad \/ Brackets \/ SingleConsolidate \/ SingleAward \/ OuterBest \/ NestedCheck \/ UngroupStage
         \/ ZeroIfImperfect \/ StripKeys \/ AttemptCredit \/ DebugAppend \/ FormatMessages \/ FollowUp \/ Done
 Spec == Init /\ [][Next]_vars /\ WF_vars(Next)
 
 (* ------------------------------------------------------------------ what TLC checks *)
-Stages == {"start", "leaf", "table", "alt", "compare", "guard", "raised", "standard", "multiply", "consol", "best", "pad", "brackets", "sconsol",
+Stages == {"start", "validate", "leaf", "table", "alt", "compare", "guard", "raised", "standard", "multiply", "consol", "best", "pad", "brackets", "sconsol",
            "saward", "obest", "ncheck", "ungroup", "zero", "strip", "attempt", "debug", "format", "returned"}
 SeqItems(s) == {s[i] : i \in 1..Len(s)}
 ItemsIn(r) == IF "nores" \in DOMAIN r THEN {} ELSE IF IsListForm(r) THEN SeqItems(r.items) ELSE {r}
@@ -529,5 +556,7 @@ InvAloneSameAsInList == Returned /\ cf.phase = 2 =>
     /\ res.ok = cf.lres[cf.k].ok /\ res.g = cf.lres[cf.k].g
     /\ res.m \ DebugTokens = cf.lres[cf.k].m
 \* a configuration is not changed by grading: the shared subgrader shows debugging output iff it was configured to
+\* the construction history of the class family does not show: debugging output iff THIS grader was built with debug
+InvFamilyDebugAsConfigured == Returned /\ Part = "family" => (("BANNER" \in res.m) <=> cf.debug)
 InvChildDebugAsConfigured == Returned /\ cf.phase = 2 => (("BANNER" \in res.m) <=> cf.cd)
 =============================================================================
